@@ -57,7 +57,12 @@ class ExprOps:
         return SV('tuple', elems=self.ev_elts(node.elts), ty=parse_ty('tuple'))
 
     def ev_List(self, node):
-        return SV('list', elems=self.ev_elts(node.elts), owned=True, ty=parse_ty('list'))
+        elems = self.ev_elts(node.elts)
+        tys = set()
+        for e in elems:
+            tys |= set(e.ty or ANY)
+        ety = frozenset(tys) if elems and 'any' not in tys else (ANY if elems else frozenset())
+        return SV('list', elems=elems, owned=True, ty=frozenset([('list', ety)]))
 
     def ev_elts(self, elts):
         out = []
@@ -191,9 +196,9 @@ class ExprOps:
 
     def binop(self, op, a, b, node):
         if a.kind == 'val':
-            a = self.narrow(a)
+            a = self.narrow(a, want=b.kind if b.kind in ('str', 'int') else None)
         if b.kind == 'val':
-            b = self.narrow(b)
+            b = self.narrow(b, want=a.kind if a.kind in ('str', 'int') else None)
         if isinstance(op, ast.Add):
             if a.kind == 'str' and b.kind == 'str':
                 return self.mk_str(mk_concat([a.term, b.term]))
@@ -201,6 +206,13 @@ class ExprOps:
                 return self.mk_int(mk_add(a.term, b.term))
             if a.kind == b.kind and a.kind in ('list', 'tuple'):
                 return self.seq_concat(a, b)
+            if self.spec_mode and a.kind in ('list', 'tuple') and b.kind in ('list', 'tuple'):
+                # specifications talk about sequences: list/tuple distinction is immaterial
+                a2 = SV('list', elems=a.elems, seq=(a.seq if a.elems is None else None) if a.kind == 'tuple' or a.owned else None,
+                        owned=True, ty=a.ty) if (a.kind == 'tuple' or a.owned) else SV('list', seq=self.seq_of(a), owned=True, ty=a.ty)
+                b2 = SV('list', elems=b.elems, seq=(b.seq if b.elems is None else None) if b.kind == 'tuple' or b.owned else None,
+                        owned=True, ty=b.ty) if (b.kind == 'tuple' or b.owned) else SV('list', seq=self.seq_of(b), owned=True, ty=b.ty)
+                return self.seq_concat(a2, b2)
             self.st.oblige(FALSE, 'TypeError: + on %s and %s' % (a.kind, b.kind), getattr(node, 'lineno', 0))
             raise PathInfeasible()
         if isinstance(op, ast.Sub) and a.kind == 'int' and b.kind == 'int':
@@ -569,6 +581,9 @@ class ExprOps:
             if ic is not None:
                 return ic
             return self.read_attr(base, attr, node)
+        if base.kind in ('str', 'int', 'bool', 'list', 'tuple', 'dict'):
+            self.st.oblige(FALSE, "AttributeError: %s object has no attribute %s" % (base.kind, attr), getattr(node, 'lineno', 0))
+            raise PathInfeasible()
         raise Unsupported('attribute %s of %s' % (attr, base.kind), node)
 
     def const_eval(self, node):
@@ -831,11 +846,12 @@ class ExprOps:
             raise Unsupported('filtered comprehension over a symbolic sequence', node)
         # symbolic map: fresh sequence with a pointwise definition
         n = it['count']
-        j = st.decls.const('cj', 'Int')
+        j = st.decls.bound_var('cj')
         saved = dict(st.env)
         mark = len(st.pc)
         nob = len(st.obligations)
         rng = mk_and(mk_le('0', j), mk_lt(j, n))
+        st.decls.bound.append(j)
         try:
             item = it['item'](j)
             self.bind_target(g.target, item)
@@ -855,20 +871,27 @@ class ExprOps:
             cside = [t for t, k in st.pc[mark:] if k not in ('wf', 'def', 'lib')]
             del st.pc[mark:]
         finally:
+            st.decls.bound.pop()
             # obligations raised inside the body hold for every index of the range
             side_now = [t for t, _ in st.pc[mark:]]
             for ob in st.obligations[nob:]:
                 pre = [t for t, _ in ob.assumptions[mark:]]
                 ob.goal = "(forall ((%s Int)) %s)" % (j, mk_implies(mk_and(rng, *pre), ob.goal))
                 ob.assumptions = ob.assumptions[:mark]
-        del st.decls.consts[j]
         # hash-consing: the sequence is determined by the (canonical) text of its defining body
         import hashlib
         canon = (n + '|' + bval + '|' + '&'.join(cside)).replace(j, '$J')
+        for bi, b in enumerate(st.decls.bound):
+            canon = canon.replace(b, '$B%d' % bi)
         q = 'qc_' + hashlib.sha1(canon.encode()).hexdigest()[:12]
+        outer = [b for b in st.decls.bound if b in (n + bval + ''.join(cside))]
+        if outer:
+            st.decls.funs[q] = (tuple('Int' for _ in outer), 'Int')
+            q = '(%s %s)' % (q, ' '.join(outer))
+        else:
+            st.decls.consts[q] = 'Int'
         import os
         if os.environ.get('PYVC_DEBUG'): print('CANON', q, canon[:600])
-        st.decls.consts[q] = 'Int'
         st.assume(mk_eq("(len %s)" % q, n), 'def')
         # unconditional facts (typing, definitions) hold for every index; facts that stem from a
         # case split inside the body only guard the element equation
